@@ -25,6 +25,7 @@ import operator
 import random
 import re
 
+from harness.pyprelude import PreludeKernels
 from vlib.core import Check, Stream, hs
 
 # --------------------------------------------------------------------------
@@ -2098,10 +2099,11 @@ class ProbeStream(Stream):
 
 CHECK = Check(
     prop="C08",
-    gen=["Containers"],
-    modules=["WzVerif.Props.C08"],
-    streams=[MultiDictStream(), HeadersStream(), HeaderSetStream(), CombinedStream(), ImmutableStream(), EnvironStream(), ImmutablePlainStream(), ProbeStream()],
+    gen=["Containers", "PyFns_Headers", "PyFns_HeaderSet"],
+    modules=["WzVerif.Props.C08", "WzVerif.Props.C08T"],
+    streams=[MultiDictStream(), HeadersStream(), HeaderSetStream(), CombinedStream(), ImmutableStream(), EnvironStream(), ImmutablePlainStream(), ProbeStream(), PreludeKernels()],
     assumptions=[
+        "Headers.add / set / _del_key / remove (called without keyword arguments, str values), _str_header_value and HeaderSet.update / add / remove / discard / __setitem__ are regenerated from the source by tools/py2lean.py (Gen/PyFns_Headers.lean, Gen/PyFns_HeaderSet.lean) on every run and proved equal to the hand model for all inputs (Props/C08T): the object's attributes are threaded through as explicit state, on_update is modelled as a flag, an iterator as the list of items not yet consumed; list / set mutation primitives are modelled in Util/PyPrelude.lean and validated by stream prelude-kernels",
         "CPython dict (insertion order, re-insertion keeps position, popitem takes the last entry), list indexing/simple slices and str.lower/upper/title on ASCII text are modelled primitives (Model.Containers.PyDict, Model.Headers.pyIdx/sliceBounds), validated by the ops-* streams, not verified",
         "type conversion callables (get/getlist type=) are a parameter of the model; the streams use int on an optional sign + ASCII digits",
         "extended slices (step != 1), non-text keys and the deprecated OrderedMultiDict classes are outside the model",
